@@ -27,6 +27,7 @@ type PartialFamily struct {
 	Collect  string // when set, violations of this property are collected instead of Prop's
 	Base     uint64 // > 0: started with NewMapPollardFromRoots on an accumulator of Base opaque leaves (TotalRows 63)
 	UndoAs   string // when set, states reached through an Undo report their clauses under this property (C06)
+	ArgRev   bool   // blocks, Verify(remember), Ingest, Prune and Undo get their targets / hashes in descending order
 	Alloc    bool   // Verify(remember) is given its targets in the coordinates of the allocated height (documented as accepted)
 	FullFR   bool   // the "fromroots" transition creates a FULL map forest (NewMapPollardFromRoots(..., true)); the
 	// block transitions then remember every addition and the "stores nothing beyond" clause is dropped
@@ -152,6 +153,9 @@ func (f *PartialFamily) run(x *Exec, hist []Op) (*u.MapPollard, *partModel, bool
 		case "block":
 			proof := L.Proof(op.Dels)
 			dh := ref.Hashes(op.Dels)
+			if f.ArgRev {
+				dh, proof = revHP(dh, proof)
+			}
 			need := false
 			for _, d := range op.Dels {
 				if !md.must[d] {
@@ -190,6 +194,9 @@ func (f *PartialFamily) run(x *Exec, hist []Op) (*u.MapPollard, *partModel, bool
 				proof.Proof = append(append([]Hash(nil), proof.Proof...), ref.FreshHash(9))
 			}
 			hs := ref.Hashes(op.Set)
+			if f.ArgRev {
+				hs, proof = revHP(hs, proof)
+			}
 			if op.Enc == "alloc" && m.TotalRows > L.R && m.TotalRows <= 63 {
 				ts := make([]uint64, len(proof.Targets))
 				for i, t := range proof.Targets {
@@ -212,7 +219,11 @@ func (f *PartialFamily) run(x *Exec, hist []Op) (*u.MapPollard, *partModel, bool
 				md.must[s] = true
 			}
 		case "prune":
-			if err := x.Prune(name, m, ref.Hashes(op.Set)); err != nil {
+			ph := ref.Hashes(op.Set)
+			if f.ArgRev {
+				ph, _ = revHP(ph, u.Proof{})
+			}
+			if err := x.Prune(name, m, ph); err != nil {
 				x.Report(f.Prop, "Prune of cached leaves fails", fmt.Sprintf("set %v: %v", op.Set, err))
 				return m, md, false
 			}
@@ -224,7 +235,11 @@ func (f *PartialFamily) run(x *Exec, hist []Op) (*u.MapPollard, *partModel, bool
 			fr := md.stack[len(md.stack)-1]
 			md.stack = md.stack[:len(md.stack)-1]
 			LP := ref.APILayout(fr.prev)
-			if err := x.Undo(name, m, uint64(fr.op.Adds), LP.Proof(fr.op.Dels), ref.Hashes(fr.op.Dels), append([]Hash(nil), LP.Roots...)); err != nil {
+			uh, up := ref.Hashes(fr.op.Dels), LP.Proof(fr.op.Dels)
+			if f.ArgRev {
+				uh, up = revHP(uh, up)
+			}
+			if err := x.Undo(name, m, uint64(fr.op.Adds), up, uh, append([]Hash(nil), LP.Roots...)); err != nil {
 				x.Report(f.Prop, "Undo of the last block fails on a partial forest", err.Error())
 				return m, md, false
 			}
@@ -623,7 +638,7 @@ func partialMedium(c *Ctx, collect ...string) {
 		n, _ := fam.Root()
 		// only the last two steps are new with respect to the shared prefix; Step re-checks each
 		for _, op := range jobs[i].hist {
-			r := fam.Step(n, op)
+			r := safeStep(c, fam, n, op)
 			atomic.AddInt64(&steps, 1)
 			atomic.AddInt64(&evals, r.Evals)
 			c.Col.Add(r.Viol...)
@@ -681,6 +696,13 @@ func init() {
 				BFS(c, &PartialFamily{Nmax: nA, TR: tr, UndoBud: 1, NoIngest: true, Alloc: true, Prop: "C09"}, 0)
 			}
 		}
+		// the same with every target / hash list in descending order
+		c.Cov.Bound["A_descending"] = fmt.Sprintf("Nmax=%d, TotalRows 0 and 63, descending targets and hashes, undo budget 1", nA)
+		for _, tr := range []uint8{0, 63} {
+			if !c.Expired() {
+				BFS(c, &PartialFamily{Nmax: nA, TR: tr, UndoBud: 1, ArgRev: true, Prop: "C09"}, 0)
+			}
+		}
 		nO := pick(c, 3, 4)
 		bases := offsetBases(c.Thorough())
 		c.Cov.Bound["offset_start"] = fmt.Sprintf("NewMapPollardFromRoots at Base in %v, Nmax=%d added leaves, undo budget 1", bases, nO)
@@ -700,4 +722,25 @@ func init() {
 			BFS(c, &PartialFamily{Nmax: nB, TR: tr, Prop: "C09", SetLimit: 2, NoIngest: true}, 0)
 		}
 	}
+}
+
+func (f *PartialFamily) CaseOf(hist []Op) (Case, string) {
+	return mkCase("partial", partPayload{Fam: *f, Hist: hist}), histStr(hist)
+}
+
+// revHP reverses the hashes and, when it has as many targets, the proof's target list with them.
+func revHP(hs []Hash, proof u.Proof) ([]Hash, u.Proof) {
+	n := len(hs)
+	rh := make([]Hash, n)
+	for i := range hs {
+		rh[n-1-i] = hs[i]
+	}
+	if len(proof.Targets) != n {
+		return rh, proof
+	}
+	rt := make([]uint64, n)
+	for i := range proof.Targets {
+		rt[n-1-i] = proof.Targets[i]
+	}
+	return rh, u.Proof{Targets: rt, Proof: proof.Proof}
 }
